@@ -270,6 +270,9 @@ THEOREMS = [
     "HappyModel.C16.Page.pagecache_dirtied_eq_writtenback_plus_dirty",
     "HappyModel.C16.Page.pagecache_evictions_account",
     "HappyModel.C16.Page.pagecache_write_leaves_page_dirty",
+    "HappyModel.C16.Page.pagecache_trace_write_leaves_page_dirty",
+    "HappyModel.C16.Page.pagecache_dirty_subset_mayDirty",
+    "HappyModel.C16.Page.pagecache_write_not_mayDirty_dirties",
     "HappyModel.C16.Page.pagecache_capacity_exceeded_current",
     "HappyModel.C16.Page.pagecache_size_le_capacity_fails_current",
     "HappyModel.C16.Page.pagecache_dirty_dropped_current",
@@ -293,8 +296,8 @@ ASSUMPTIONS = [
     "pagecache: latencies are whole milliseconds passed as float seconds (conversion to nanoseconds checked exact in run_impl); nothing in PageCache depends on the clock, segments carry no time",
 ]
 HYPOTHESES = [
-    "pagecache theorems: capacity_pages ≥ 1 (the constructor rejects less); repaired variant (fixes/C16-pagecache-capacity.diff); schedules are arbitrary lists of start/resume actions (a resume of a call that is not suspended is a no-op); pagecache_write_leaves_page_dirty holds for both variants, any capacity and any state",
+    "pagecache theorems: capacity_pages ≥ 1 (the constructor rejects less); repaired variant (fixes/C16-pagecache-capacity.diff); schedules are arbitrary lists of start/resume actions (a resume of a call that is not suspended is a no-op); pagecache_write_leaves_page_dirty holds for both variants, any capacity and any state; pagecache_dirty_subset_mayDirty / pagecache_write_not_mayDirty_dirties: repaired variant, every capacity and read-ahead width, every schedule",
 ]
 PARTIAL = {
-    "HappyModel.C16.Page.pagecache_dirtied_eq_writtenback_plus_dirty": "proves the Spec's write-back law in its global form (W = dirty_writebacks + dirty_pages + victims in write-back, at most one per suspended call) and pagecache_evictions_account proves the evictions clause per segment; NOT proved as 'the Spec judge accepts every model transcript': the judge's per-call debt bookkeeping, its flush clause (an undisturbed flush returns the number of pages dirty at its start and leaves none dirty) and its LRU hit/miss clause (stack distance, non-overlapping calls, read-ahead off) are checked on implementation transcripts only",
+    "HappyModel.C16.Page.pagecache_dirtied_eq_writtenback_plus_dirty": "proves the Spec's write-back law in its global form (W = dirty_writebacks + dirty_pages + victims in write-back, at most one per suspended call) and pagecache_evictions_account proves the evictions clause per segment; the per-page clause the judge applies (mayDirty) is proved along every schedule of the repaired model: pagecache_dirty_subset_mayDirty (the judge's list over-approximates the dirty pages), pagecache_write_not_mayDirty_dirties (a returning write_page(p) with p outside the list makes W grow by one and leaves p dirty), pagecache_trace_write_leaves_page_dirty (every returning write_page leaves its page dirty). NOT proved as 'the executable judge accepts every model transcript': the translation of these statements into jstep's per-call debt arithmetic (phi, b, gainMin/gainMax), its flush clause (an undisturbed flush returns the number of pages dirty at its start and leaves none dirty) and its LRU hit/miss clause (stack distance, non-overlapping calls, read-ahead off) are checked on implementation transcripts only",
 }
